@@ -60,21 +60,27 @@ func mutexOp(ci ssa.CallInstruction, mutex *types.Var) string {
 	return ""
 }
 
-// entryPoints: functions of pkg with no resolved caller inside the repo (they are entered from
-// outside: interface dispatch, escaping closures, exported API).
+// entryPoints: functions of pkg with no resolved caller inside the package (they are entered from
+// outside: other packages, interface dispatch, escaping closures).
 func (c *Ctx) entryPoints(pkg string) []*ssa.Function {
 	var out []*ssa.Function
 	for _, fn := range c.FuncsIn(pkg) {
 		if len(fn.Blocks) == 0 {
 			continue
 		}
-		if fn.Synthetic != "" && !strings.Contains(fn.Synthetic, "instance") {
+		if fn.Synthetic != "" && !strings.HasPrefix(fn.Synthetic, "instance of") {
 			continue // wrappers, bound methods, package init
 		}
-		if fn.Origin() != nil {
-			continue // instantiation: the generic body (origin) is analysed instead, instances when inlined
+		if fn.TypeParams().Len() > 0 && len(fn.TypeArgs()) == 0 {
+			continue // generic body: its instantiations are analysed
 		}
-		if len(c.CallersOf(fn)) == 0 {
+		internal := false
+		for _, ci := range c.CallersOf(fn) {
+			if fnPkgPath(ci.Parent()) == pkg && ci.Parent().Synthetic == "" {
+				internal = true
+			}
+		}
+		if !internal {
 			out = append(out, fn)
 		}
 	}
@@ -112,13 +118,14 @@ func runLockDiscipline(c *Ctx, d lockDisc) (nAccess int) {
 				return -1
 			},
 			RunDeferred: func(pc *PathCtx, s uint64, df *ssa.Defer) uint64 { return s &^ ldMU },
-			Inline: func(ci ssa.CallInstruction) *ssa.Function {
+			Inline: func(ci ssa.CallInstruction) []*ssa.Function {
+				var out []*ssa.Function
 				for _, f := range c.CalleesOf(ci) {
 					if inPkg(f) && (d.exempt == nil || !d.exempt(f)) {
-						return f
+						out = append(out, f)
 					}
 				}
-				return nil
+				return out
 			},
 			Step: func(pc *PathCtx, s uint64, ins ssa.Instruction) uint64 {
 				switch x := ins.(type) {
@@ -491,13 +498,14 @@ func ruleR15cd(c *Ctx) {
 				}
 				return s &^ (cdMU | cdNEEDRECHECK)
 			},
-			Inline: func(ci ssa.CallInstruction) *ssa.Function {
+			Inline: func(ci ssa.CallInstruction) []*ssa.Function {
+				var out []*ssa.Function
 				for _, f := range c.CalleesOf(ci) {
 					if fnPkgPath(f) == pkgCommand && f != unlockFn && f != tryLockFn && !isRecheck(f) {
-						return f
+						out = append(out, f)
 					}
 				}
-				return nil
+				return out
 			},
 			Step: func(pc *PathCtx, s uint64, ins ssa.Instruction) uint64 {
 				ci, ok := ins.(ssa.CallInstruction)
